@@ -8,6 +8,7 @@
                            prints one result line per case
    steps                 : (C10) stdin = fragment scripts on the Start/Step/Get bundles with Get positions
                            and state relocation; one line per script
+   overlap               : (C11) stdin = "overlap f=bashHash l= len= doff=": hash placed inside / around src in one arena
    platform              : prints the bash-f platform compiled into the library */
 #include "vx.h"
 #include <bee2/core/err.h>
@@ -822,6 +823,35 @@ static int stepsMain(void)
 	return 0;
 }
 
+/* ------------------------------------------------------------------ C11: overlapping buffers of the one-shot hash
+   stdin: lines "overlap f=bashHash l=<level> len=<N> doff=<D>"   (bash.h, bashHash: the buffers may overlap)
+   One arena holds src at offset BASE and the hash at BASE + doff; the input is snapshotted before the call.
+   Output: an ordinary "bashHash" line (judged by Trace_Bash!LineOk) with cls = overlap:... and doff. */
+#define OV_ARENA 4096
+#define OV_BASE 1024
+static int overlapMain(void)
+{
+	static char line[1 << 12]; vx_cmd c;
+	while (fgets(line, sizeof line, stdin))
+	{
+		const char* f; size_t l, len; long doff; octet* arena; octet* snap; octet res[64]; err_t rc; char cls[96];
+		if (!vxParse(&c, line)) continue;
+		f = vxArg(&c, "f");
+		if (!f || strcmp(f, "bashHash") != 0) { fprintf(stderr, "unknown function %s\n", f ? f : "?"); return 3; }
+		l = (size_t)vxInt(&c, "l", 128); len = (size_t)vxInt(&c, "len", 32); doff = (long)vxInt(&c, "doff", 0);
+		if (l == 0 || l > 256 || l % 16 || len > 2048 || doff < -(long)OV_BASE || doff > (long)(len + 512)) return 2;
+		arena = (octet*)malloc(OV_ARENA); snap = (octet*)malloc(len ? len : 1);
+		vxRandBuf(arena, OV_ARENA); memcpy(snap, arena + OV_BASE, len);
+		rc = bashHash(arena + OV_BASE + doff, l, arena + OV_BASE, len);
+		memcpy(res, arena + OV_BASE + doff, l / 4);
+		sprintf(cls, "overlap:l=%u:len=%u:doff=%ld", (unsigned)l, (unsigned)len, doff);
+		jBegin(); jStr("op", "bashHash"); jStr("cls", cls); jInt("l", (long long)l); jOct("in", snap, len);
+		jOct("out", res, l / 4); jStr("err", errName(rc)); jInt("doff", doff); jEnd();
+		free(arena); free(snap);
+	}
+	return 0;
+}
+
 int main(int argc, char** argv)
 {
 	const char* mode = argc > 1 ? argv[1] : "record";
@@ -845,5 +875,6 @@ int main(int argc, char** argv)
 	}
 	if (strcmp(mode, "replay") == 0) { replay(); return 0; }
 	if (strcmp(mode, "steps") == 0) return stepsMain();
+	if (strcmp(mode, "overlap") == 0) return overlapMain();
 	return 2;
 }
